@@ -32,6 +32,7 @@ def run(ctx, model_ok=True, proofs_broken=False):
     scripts = P.mixed_scripts(ctx, n, policy_p=0.7)
     scripts += P.handover_scripts(ctx, 300 if ctx.tier == "quick" else 12000)
     scripts += P.tfile_scripts(ctx, modes=("bytes", "rand"))
+    scripts += P.reqline_scripts(ctx, 150 if ctx.tier == "quick" else 3000)
     scripts += lib.load_fuzz_corpus(ctx, 10 ** 9, "C01")
     # the decompression corpus: judged here by the sanitizers only (the model needs recorded inflate results: that replay is C07's)
     scripts += [[l for l in s if l != "conn zon"] for s in lib.load_fuzz_corpus_z(ctx, 1200, "C01z")]
